@@ -20,6 +20,8 @@ pub struct Hist {
     /// harness-side count of encryptions per direction (ISO oracle for Spec(real))
     pub n_enc_r: u64,
     pub n_enc_d: u64,
+    /// emit the C13 specification predicates on the real observations
+    pub spec13: bool,
 }
 
 pub fn dev_outcome_class(o: &RequestAuthenticationOutcome) -> &'static str {
@@ -42,7 +44,7 @@ pub fn rdr_outcome_class(o: &ResponseAuthenticationOutcome) -> String {
 impl Hist {
     pub fn start(ctx: &mut Ctx, sim: Sim, tag: &str) -> Hist {
         let mut h = Hist { sim, tag: tag.into(), to_dev: vec![], to_rdr: vec![], extra: vec![], ops: vec![],
-                           last_req_outcome: None, last_resp_outcome: None, n_enc_r: 1, n_enc_d: 0 };
+                           last_req_outcome: None, last_resp_outcome: None, n_enc_r: 1, n_enc_d: 0, spec13: false };
         let d = h.sim.describe(&h.sim.establishment.clone(), &[]);
         h.to_dev.push((h.sim.establishment.clone(), d));
         let real = h.sim.summary();
@@ -60,6 +62,15 @@ impl Hist {
         let obs = match iv.split_once(':') { Some((k, hexiv)) if k == want_key => format!("{n}:{hexiv}"), _ => format!("{n}:00") };
         ctx.emit.line("spec", &format!("spec:{}", self.tag), format!("spec.iv {} {} {}", reader, n, obs), "true".into(),
             serde_json::json!({"history": self.ops.clone(), "observed_iv": iv, "expected_counter": n}));
+    }
+    fn spec13_line(&mut self, ctx: &mut Ctx, kind: &str, op: String) {
+        if !self.spec13 { return; }
+        ctx.emit.line("spec", &format!("spec:{}:{}", self.tag, kind), op, "true".into(),
+            serde_json::json!({"history": self.ops.clone()}));
+    }
+    fn spec13_notstuck(&mut self, ctx: &mut Ctx) {
+        let st = self.sim.dev_state_str();
+        self.spec13_line(ctx, "notstuck", format!("spec.c13.notstuck {st}"));
     }
     fn emit(&mut self, ctx: &mut Ctx, op: String, real: String) {
         self.ops.push(op.clone());
@@ -81,8 +92,11 @@ impl Hist {
     pub fn handle_request(&mut self, ctx: &mut Ctx, msg: &[u8], desc: &str) {
         let o = self.sim.dev.handle_request(msg);
         let real = format!("{} {}", dev_outcome_class(&o), self.sim.summary());
+        let malformed = dev_outcome_class(&o) == "accepted:malformed";
         self.last_req_outcome = Some(o);
         self.emit(ctx, format!("sess.handleRequest {desc}"), real);
+        if malformed { let st = self.sim.dev_state_str(); self.spec13_line(ctx, "malformed", format!("spec.c13.malformed {st}")); }
+        self.spec13_notstuck(ctx);
     }
     /// prepare_response for the given doc types, all default elements permitted
     pub fn prepare(&mut self, ctx: &mut Ctx, doc_types: &[&str]) {
@@ -99,6 +113,7 @@ impl Hist {
         };
         let real = self.sim.summary();
         self.emit(ctx, format!("sess.prepare {}", if docs.is_empty() { "-".into() } else { docs.join(",") }), real);
+        self.spec13_notstuck(ctx);
     }
     pub fn get_next(&mut self, ctx: &mut Ctx) -> Option<Vec<u8>> {
         let (real, payload) = match self.sim.dev.get_next_signature_payload() {
@@ -113,7 +128,9 @@ impl Hist {
                 (format!("some:{}", dt.map(|d| self.sim.doc_id(&d)).unwrap_or("?".into())), Some(payload.to_vec()))
             }
         };
-        self.emit(ctx, "sess.getNext".into(), real);
+        self.emit(ctx, "sess.getNext".into(), real.clone());
+        let st = self.sim.dev_state_str();
+        self.spec13_line(ctx, "offered", format!("spec.c13.offered {} {st}", real.strip_prefix("some:").unwrap_or("none")));
         payload
     }
     /// submit a signature: a real one over the offered payload if there is one, else dummy bytes
@@ -123,6 +140,10 @@ impl Hist {
             (Some(p), false) => self.sim.sign_real(p),
             _ => { let n = self.sim.sigs.len() as u8; self.sim.sign_dummy(n) }
         };
+        let st_before = self.sim.dev_state_str();
+        let offered = match self.sim.dev.get_next_signature_payload() { None => "none".to_string(), Some((uuid, _)) => {
+            let p = sess::peek_device(&self.sim.dev);
+            match &p.state { Some(isomdl::presentation::device::State::Signing(pr)) => pr.prepared_documents.iter().find(|d| d.id == uuid).map(|d| self.sim.doc_id(&d.doc_type)).unwrap_or("?".into()), _ => "?".into() } } };
         let pb = sess::peek_device(&self.sim.dev);
         let before = pb.dev_ctr;
         let was_ready = matches!(&pb.state, Some(isomdl::presentation::device::State::ReadyToRespond(_)));
@@ -141,18 +162,26 @@ impl Hist {
             }
         };
         self.emit(ctx, format!("sess.submit {id}"), real);
+        let st_after = self.sim.dev_state_str();
+        self.spec13_line(ctx, "submit", format!("spec.c13.submit {st_before} {st_after} {offered} {id}"));
+        self.spec13_notstuck(ctx);
         if let Some(iv) = enc_iv { if iv != "none" { self.n_enc_d += 1; self.spec_iv(ctx, false, &iv); } }
     }
     pub fn response_ready(&mut self, ctx: &mut Ctx) {
         let real = self.sim.dev.response_ready().to_string();
-        self.emit(ctx, "sess.responseReady".into(), real);
+        self.emit(ctx, "sess.responseReady".into(), real.clone());
+        let st = self.sim.dev_state_str();
+        self.spec13_line(ctx, "ready", format!("spec.c13.ready {real} {st}"));
     }
     pub fn retrieve(&mut self, ctx: &mut Ctx) -> Option<Vec<u8>> {
         let ctr = sess::peek_device(&self.sim.dev).dev_ctr;
+        let st_before = self.sim.dev_state_str();
         let r = self.sim.dev.retrieve_response();
         let d = match &r { None => "none".to_string(), Some(b) => { let d = self.sim.describe(b, &[ctr]); self.to_rdr.push((b.clone(), d.clone())); d } };
         let real = format!("{d} {}", self.sim.summary());
         self.emit(ctx, "sess.retrieve".into(), real);
+        let st_after = self.sim.dev_state_str();
+        self.spec13_line(ctx, "retrieve", format!("spec.c13.retrieve {d} {st_before} {st_after}"));
         r
     }
     pub fn handle_response(&mut self, ctx: &mut Ctx, msg: &[u8], desc: &str) {
